@@ -14,6 +14,8 @@ inductive J where
   | null
   | str (s : S)
   | num (z : Int)
+  | lit (l : S)            -- a number that is not an integer, as its literal
+  | bool (b : Bool)
   | arr (l : List J)
   | obj (ms : List (S × J))
 
@@ -116,5 +118,75 @@ def readTargetJ : J → Out Target
       else (readSub (.obj ms)).bind fun s => .ok (.simple s)
     | none => .err "JsonError"
   | _ => .err "JsonError"
+
+/-! ## data values (`DataValue`: adjacently tagged, `@type` + `value`) -/
+
+/-- a data value as far as its JSON form goes: floats and datetimes keep their literal -/
+inductive DVJ where
+  | null | bool (b : Bool) | int (z : Int) | flt (l : S) | str (s : S) | dt (l : S)
+  | list (xs : List DVJ)
+
+def tagged (t : String) (v : J) : J := .obj [(kType, .str t.toList), (kValue, v)]
+
+mutual
+/-- `Serialize for DataValue` -/
+def valueJ : DVJ → J
+  | .null => .obj [(kType, .str "Null".toList)]
+  | .bool b => tagged "Bool" (.bool b)
+  | .int z => tagged "Int" (.num z)
+  | .flt l => tagged "Float" (.lit l)
+  | .str s => tagged "String" (.str s)
+  | .dt l => tagged "Datetime" (.str l)
+  | .list xs => tagged "List" (.arr (valuesJ xs))
+def valuesJ : List DVJ → List J
+  | [] => []
+  | x :: xs => valueJ x :: valuesJ xs
+end
+
+-- `isDt` stands for chrono's RFC 3339 parser accepting the literal, `showF` for how an integer JSON number reads as a
+-- float; `fuel` bounds the nesting depth (lists in lists)
+mutual
+def readValue (isDt : S → Bool) (showF : Int → S) : Nat → J → Out DVJ
+  | 0, _ => .err "too-deep"
+  | fuel + 1, .obj ms =>
+    match field ms kType with
+    | some (.str t) =>
+      if t = "Null".toList then .ok .null
+      else match field ms kValue with
+        | none => .err "JsonError"
+        | some v =>
+          if t = "Bool".toList then (match v with | .bool b => .ok (.bool b) | _ => .err "JsonError")
+          else if t = "Int".toList then (match v with | .num z => .ok (.int z) | _ => .err "JsonError")
+          else if t = "Float".toList then (match v with | .lit l => .ok (.flt l) | .num z => .ok (.flt (showF z)) | _ => .err "JsonError")
+          else if t = "String".toList then (match v with | .str s => .ok (.str s) | _ => .err "JsonError")
+          else if t = "Datetime".toList then (match v with | .str s => if isDt s then .ok (.dt s) else .err "JsonError" | _ => .err "JsonError")
+          else if t = "List".toList then (match v with | .arr l => (readValues isDt showF fuel l).bind fun xs => .ok (.list xs) | _ => .err "JsonError")
+          else .err "JsonError"
+    | _ => .err "JsonError"
+  | _ + 1, _ => .err "JsonError"
+def readValues (isDt : S → Bool) (showF : Int → S) : Nat → List J → Out (List DVJ)
+  | _, [] => .ok []
+  | fuel, j :: js => (readValue isDt showF fuel j).bind fun x => (readValues isDt showF fuel js).bind fun xs => .ok (x :: xs)
+end
+
+mutual
+def DVJ.depth : DVJ → Nat
+  | .list xs => 1 + depths xs
+  | _ => 1
+def depths : List DVJ → Nat
+  | [] => 0
+  | x :: xs => max x.depth (depths xs)
+end
+
+mutual
+/-- the datetime literals inside a value -/
+def dtLits : DVJ → List S
+  | .dt l => [l]
+  | .list xs => dtLitss xs
+  | _ => []
+def dtLitss : List DVJ → List S
+  | [] => []
+  | x :: xs => dtLits x ++ dtLitss xs
+end
 
 end Stam.JS
